@@ -505,6 +505,10 @@ fn main() {
     }
     timer_handle_laws(&report);
     timer_race_replays(&report);
+    join_order_replays(&report);
+    if args.worker == 0 {
+        deadline_replays(&report);
+    }
     report.lock().unwrap().finish(&args);
 }
 
@@ -640,6 +644,119 @@ fn equality_case(rng: &mut Rng, r: &mut Report) {
     }
     if ab == want && ba == want {
         r.nontrivial(vcommon::hash_json(&(format!("{c1:?}"), format!("{c2:?}"))));
+    }
+}
+
+/// Several tasks wait for the same task through copies of its join handle and each asks the shell
+/// for something afterwards: the order of those requests must be the same in every replay, whatever
+/// the allocator did in between (nothing may be ordered by address).
+fn join_order_replays(report: &Arc<Mutex<Report>>) {
+    use cmdlab::ops::{m::Effect, Event as LabEvent, LabEffect, Op as LabOp, Split, Val};
+    let run = |waiters: u32| -> Vec<u32> {
+        let mut cmd: crux_core::Command<Effect, LabEvent> = crux_core::Command::new(move |ctx| async move {
+            let child = ctx.spawn(|ctx| async move {
+                ctx.request_from_shell(LabOp { site: 1, arg: 0, kind: 0, trail: vec![] }).await;
+            });
+            for i in 0..waiters {
+                let h = child.clone();
+                ctx.spawn(move |ctx| async move {
+                    h.await;
+                    ctx.request_from_shell(LabOp { site: 10 + i, arg: 0, kind: 0, trail: vec![] }).await;
+                });
+            }
+        });
+        let mut first: Vec<_> = cmd.effects().collect();
+        let mut order = vec![];
+        if let Some(e) = first.pop() {
+            if let Split::Op(mut r) = e.split() {
+                let _ = r.resolve(Val(7));
+            }
+        }
+        let later: Vec<_> = cmd.effects().collect();
+        for e in &later {
+            order.push(match e {
+                Effect::Op(r) => r.operation.site,
+                _ => 0,
+            });
+        }
+        // keep the requests alive until the order is read
+        drop(later);
+        order
+    };
+    for waiters in [2u32, 3, 5, 8] {
+        let res = vcommon::trap(|| {
+            let first = run(waiters);
+            let mut junk: Vec<Vec<u8>> = vec![];
+            for rep in 1..40usize {
+                // unrelated heap activity between replays moves later allocations around
+                junk.push(vec![0u8; 16 + (rep * 37) % 900]);
+                if rep % 3 == 0 {
+                    junk.remove(0);
+                }
+                let again = run(waiters);
+                if again != first {
+                    return (first, Some((rep, again)));
+                }
+            }
+            (first, None)
+        });
+        let mut r = report.lock().unwrap();
+        r.eval();
+        r.count("join_order_replays", 40);
+        match res {
+            Ok((first, None)) => {
+                if first.len() == waiters as usize {
+                    r.nontrivial(vcommon::hash_json(&("join-order", waiters)));
+                } else {
+                    r.violation("replay-failed", &format!("join-order history produced {first:?}"), json!({"lane": "detlab-join-order", "waiters": waiters}));
+                }
+            }
+            Ok((first, Some((rep, again)))) => r.violation(
+                "replay-differs/in-process/join-wake-order",
+                &format!("replay {rep}: tasks waiting for one task through copies of its join handle asked the shell in the order {again:?}, the first replay in the order {first:?}"),
+                json!({"lane": "detlab-join-order", "waiters": waiters}),
+            ),
+            Err(p) => r.violation(&format!("panic/{}", vcommon::panic_site(&p)), &format!("panic: {p}"), json!({"lane": "detlab-join-order"})),
+        }
+    }
+}
+
+/// A capability-API timer whose deadline lies a second ahead is replayed before and after that
+/// moment: what the core emits may not depend on the wall clock.
+fn deadline_replays(report: &Arc<Mutex<Report>>) {
+    let run = |deadline_secs: u64| -> Result<Vec<Vec<u8>>, String> {
+        let bridge: Bridge<AppD> = Bridge::new(Core::new());
+        let mut norm = TimerNorm { map: HashMap::new() };
+        let mut outputs = vec![];
+        for api in [Api::Legacy, Api::Command] {
+            let batch = bridge.process_event(&ser(&Event::Do(Job::Time(api, TimeJob::NotifyAtSecs(deadline_secs, 0))))).map_err(|e| e.to_string())?;
+            let reqs: Vec<WireReq> = bopts().deserialize(&batch).map_err(|e| format!("effects do not decode: {e}"))?;
+            outputs.push(ser(&reqs.into_iter().map(|r| WireReq { id: r.id, effect: norm.op(r.effect) }).collect::<Vec<_>>()));
+            outputs.push(bridge.view().map_err(|e| e.to_string())?);
+        }
+        Ok(outputs)
+    };
+    let now = std::time::SystemTime::now().duration_since(std::time::UNIX_EPOCH).map(|d| d.as_secs()).unwrap_or(0);
+    let deadline = now + 2;
+    let res = vcommon::trap(|| -> Result<bool, String> {
+        let before = run(deadline)?;
+        // past the deadline (a sleep in the workload, not a verdict)
+        std::thread::sleep(Duration::from_millis(2600));
+        let after = run(deadline)?;
+        Ok(before == after)
+    });
+    let mut r = report.lock().unwrap();
+    r.eval();
+    r.count("replays_before_and_after_a_wall_clock_deadline", 2);
+    match res {
+        Ok(Ok(true)) => r.nontrivial(0xdead_11e),
+        Ok(Ok(false)) => r.violation(
+            "replay-differs/in-process/wall-clock",
+            "a history with a timer deadline replayed before and after that moment of wall-clock time gives different outputs",
+            json!({"lane": "detlab-deadline", "deadline_secs": deadline}),
+        ),
+        Ok(Err(e)) => r.violation("replay-failed", &e, json!({"lane": "detlab-deadline"})),
+        Err(p) => r.violation(&format!("panic/{}", vcommon::panic_site(&p)), &format!("panic: {p}"), json!({"lane": "detlab-deadline"})),
     }
 }
 
